@@ -24,6 +24,7 @@ func Exec(cursor store.Cursor, expr *grammar.Grammar, settings ...ContextApply) 
 		root:             cursor,
 		result:           Result(NodeSet{cursor}),
 		contextPosition:  0,
+		contextSize:      1,
 		builtinFunctions: builtinFunctions,
 		ContextSettings:  contextSettings,
 	}
